@@ -5,6 +5,11 @@ HERE = os.path.dirname(os.path.dirname(os.path.abspath(__file__)))
 
 # id -> (category, technique, level text, level note, design ref)
 CHECKS = {
+ "C18": ("exploration",
+   "property-based testing (proptest) with independent reference algorithms over a model edge list: generated multigraphs and queries, validity predicates for returned paths (real walk, allowed direction, filter, optimal length/weight) and set/partition comparisons for enumerations and graph algorithms; child-process probe for non-terminating enumeration",
+   "Generated multigraphs (1-24 nodes, directed and undirected, self-loops, parallel and antiparallel edges, two edge types, weight palettes incl. zero/equal/large/Int/Float/missing, filters; optional deletes and weight updates first) are queried through find_path, find_weighted_path, find_all_paths, find_all_weighted_paths, find_variable_paths, traverse, neighbors, astar_path and variable-length match_pattern, plus an all-pairs sweep on small graphs. Every returned path must be a walk over existing edges in an allowed direction that passes the filter and whose hop count / total weight equals the reference optimum (BFS; Dijkstra cross-checked with Bellman-Ford); not-found iff unreachable; enumerations are compared as sets with bounded reference enumerations. A second family checks components, SCC, MST, k-core, triangles, articulation points, bridges and biconnected blocks against brute-force references.",
+   "Negative/NaN/infinite weights are not generated (outside the documented domain). Where the documentation leaves a choice (traverse through filtered nodes, cyclic walks through the end node) a subset/superset sandwich is used. A hang of the product is inconclusive (exit 2). 14 recorded findings (A*, biconnected, triangles, duplicates, backwards traversal of directed edges, zero-weight cycles).",
+   "DESIGN.md section 1 C18"),
  "C11": ("exploration",
    "generated thread scripts + schedules under a deterministic scheduler (yield hooks inside embedding-class put/get/delete, between existence check and removal, around the WAL lock); recorded histories decided by a WGL linearizability search against a sequential map; durable order checked by recovering the log; real-thread stress with the same checker",
    "Scripted threads (2-8) of put/get/delete/exists/scan on 1-3 contended keys of one key class run under the harness's scheduler, which switches threads at the store.emb.put/get/del, store.delete.checked hooks and at operation boundaries following a generated schedule. Every written value is unique and, for embedding keys, stamped into every vector component and a sibling field, so a mixture of two writes is recognisable. Invocation/response stamps come from one counter; the history must be linearizable against a sequential map (WGL search with memoisation, per key when no scan is present), with direct corollaries (no value nobody wrote) reported first. The durable part runs put_durable/delete_durable scripts with yield points inside and after the WAL lock and requires that recovering a copy of the log gives exactly the in-memory state. A real-thread stress part feeds the same checker.",
